@@ -376,6 +376,12 @@ def initiator_case(ck, rng, vi):
             if wi is None or wr is None:
                 continue
             variants.append((f'widened-{what}-{side}', wi, wr, None, False))
+    # several selectors in one payload: what is INSTALLED is judged (the kernel selectors must lie inside the offer), whichever entry the initiator looks at
+    w_all_i, w_all_r = wide(big_i, 'all'), wide(big_r, 'all')
+    variants.append(('list-wide-first-then-honest-both', [w_all_i, big_i], [w_all_r, big_r], None, 'kernel'))
+    variants.append(('list-wide-first-then-honest-tsi', [w_all_i, big_i], big_r, None, 'kernel'))
+    variants.append(('list-honest-first-then-wide-both', [big_i, w_all_i], [big_r, w_all_r], None, 'kernel'))
+    variants.append(('list-two-wide-tsr', big_i, [wide(big_r, 'addr-hi'), w_all_r], None, False))
     variants.append(('mode-flipped', big_i, big_r, mode != 'transport', False))
     variants.append(('swapped-tsi-tsr', big_r, big_i, None, False))
     k = vi // 2
@@ -390,6 +396,17 @@ def initiator_case(ck, rng, vi):
     ck.count('initiator.variants')
     ck.seen('initiator.labels', (label, mode))
     ck.nontrivial(('initiator', mode, label, inst))
+    if ok == 'kernel':
+        # installed or refused, both fine; but nothing wider than the offer may reach the kernel
+        mynet, peernet = ipaddress.ip_network(kw.get('a_subnet', S.A4)), ipaddress.ip_network(kw.get('b_subnet', S.B4))
+        for r_ in [r for r in a.kernel.requests if r['msg'] and r['msg']['name'] == 'NEWSA'][n0:]:
+            ks = r_['msg']['sa']['sel']
+            nets = [ipaddress.ip_network((ks['saddr'], ks['prefixlen_s']), strict=False), ipaddress.ip_network((ks['daddr'], ks['prefixlen_d']), strict=False)]
+            ck.count('initiator.kernel_selectors_of_list_answers_checked')
+            if not all(any(n_.version == o_.version and n_.subnet_of(o_) for o_ in (mynet, peernet)) for n_ in nets):
+                ck.violation(f'initiator-installed-a-selector-wider-than-its-offer-from-a-list-answer:{label}', {'kernel_selector': ks}, sim.case)
+        ck.count('initiator.list_answers_' + ('installed' if inst else 'refused'))
+        return
     if ok and not inst:
         ck.violation(f'honest-selectors-from-an-independent-responder-not-installed:{label}', {}, sim.case)
     if not ok and inst:
@@ -513,7 +530,7 @@ def rekey_case(ck, rng, i):
             ck.count('rekey.selectors_equal')
 
 
-REKEY_VARIANTS = ['equal', 'wider-addresses-inside-the-policy', 'whole-policy', 'wider-than-the-policy', 'wider-ports', 'wider-protocol', 'narrower', 'disjoint-inside-the-policy',
+REKEY_VARIANTS = ['equal', 'equal-selectors-but-the-other-mode', 'wider-addresses-inside-the-policy', 'whole-policy', 'wider-than-the-policy', 'wider-ports', 'wider-protocol', 'narrower', 'disjoint-inside-the-policy',
                   'list:equal+wider', 'list:wider+equal', 'tsi-equal-tsr-wider', 'tsi-wider-tsr-equal']
 
 
@@ -561,7 +578,7 @@ def crafted_rekey_case(ck, rng, i):
         if proto:
             o['ipproto'] = 0
         return o
-    W = {'equal': ([old_i], [old_r]), 'wider-addresses-inside-the-policy': ([wide(old_i, addr=True)], [wide(old_r, addr=True)]),
+    W = {'equal': ([old_i], [old_r]), 'equal-selectors-but-the-other-mode': ([old_i], [old_r]), 'wider-addresses-inside-the-policy': ([wide(old_i, addr=True)], [wide(old_r, addr=True)]),
          'whole-policy': ([wide(old_i, policy=True)], [wide(old_r, policy=True)]), 'wider-than-the-policy': ([wide(old_i, beyond=True)], [wide(old_r, beyond=True)]),
          'wider-ports': ([wide(old_i, ports=True)], [old_r]), 'wider-protocol': ([wide(old_i, proto=True)], [wide(old_r, proto=True)]),
          'narrower': ([dict(old_i, eaddr=old_i['saddr'])], [dict(old_r, eaddr=old_r['saddr'])]),
@@ -574,7 +591,7 @@ def crafted_rekey_case(ck, rng, i):
            {'type': codec.SA, 'critical': False, 'proposals': [{'num': 1, 'proto': 3, 'spi': new_spi, 'transforms': child}]},
            {'type': codec.NONCE, 'critical': False, 'data': bytes(rng.randrange(256) for _ in range(32))},
            {'type': codec.TSI, 'critical': False, 'selectors': tsi}, {'type': codec.TSR, 'critical': False, 'selectors': tsr}]
-    if mode == 'transport':
+    if (mode == 'transport') != (variant == 'equal-selectors-but-the-other-mode'):
         pls.append({'type': codec.NOTIFY, 'critical': False, 'proto': 0, 'spi': b'', 'ntype': 16391, 'data': b''})
     sim.inject(b, S.A4, S.B4, p.seal(36, 2, pls, response=False))
     ck.count(f'crafted_rekey.{variant}')
@@ -591,6 +608,12 @@ def crafted_rekey_case(ck, rng, i):
     ck.seen('crafted_rekey.outcomes', (variant, outcome))
     if variant == 'equal' and len(new) != 2:
         ck.violation('rekey-with-the-selectors-of-the-replaced-sa-refused', {'notifies': nts}, sim.case)
+    if variant == 'equal-selectors-but-the-other-mode':
+        if new or 38 not in nts:
+            ck.violation('rekey-request-asking-for-the-other-mode-not-refused-with-ts-unacceptable', {'installed': len(new), 'notifies': nts, 'policy_mode': mode}, sim.case)
+        else:
+            ck.count('crafted_rekey.refused')
+        return
     if new:
         ck.count('crafted_rekey.installed')
         for r in new:
@@ -625,7 +648,7 @@ def run(ck):
                         if ck.mine(g):
                             responder_case(ck, ck.rng('grid', g), g, forced=(kind, pi, ask, rot))
     for rep in range(1 if not thorough else 40):
-        for vi in range(60):
+        for vi in range(72):
             if ck.mine(vi + rep):
                 initiator_case(ck, ck.rng('init', vi, rep), vi)
     for i in range(40 if not thorough else 4000):
